@@ -97,10 +97,13 @@ class Adapter(object):
     self.msgs = []
     self.off = 0
     self.fail = set()
+    self.swap = set()
+    self.gen = 0
+    self.stale = []
     if side == "ctl":
       self.sock = FakeSock()
       self.con = of_01.Connection(self.sock)
-      self.con.handlers = [self._rec_ctl] * 64
+      self.con.handlers = [self._handler(0)] * 64
     elif side == "swloop":
       # the whole switch-side receive path: RecocoIOLoop.run -> _do_recv (-> _try_connect) -> OFConnection.read
       from harness import c10_loops
@@ -109,20 +112,33 @@ class Adapter(object):
       self.worker = IOWorker()
       self.worker.socket = FakeSock()
       self.con = swmod.OFConnection(self.worker)
-      self.con.set_message_handler(self._rec_sw)
+      self.con.set_message_handler(self._handler(0))
 
-  def _rec_ctl(self, con, msg):
-    self.got.append((msg.header_type, msg.xid, msg.pack()))
-    if msg.xid in self.fail:
-      raise RuntimeError("handler failure (scripted)")
-
-  _rec_sw = _rec_ctl
+  def _handler(self, gen):
+    """message handler of generation `gen`.  A handler whose position is in `swap` installs the next generation
+    (what the handshake's barrier-reply handler does with con.handlers); a message that reaches a handler of a
+    superseded generation was not delivered to the connection's handlers."""
+    def rec(con, msg):
+      if gen != self.gen:
+        self.stale.append([msg.header_type, msg.xid])
+        return
+      self.got.append((msg.header_type, msg.xid, msg.pack()))
+      if msg.xid in self.swap:
+        self.gen += 1
+        if self.side == "ctl":
+          self.con.handlers = [self._handler(self.gen)] * 64
+        else:
+          self.con.set_message_handler(self._handler(self.gen))
+      if msg.xid in self.fail:
+        raise RuntimeError("handler failure (scripted)")
+    return rec
 
   def step(self, a, args):
     if a == "Stream":
       self.msgs = [build(self.side, k, i + 1) for i, k in enumerate(args["kinds"])]
       self.stream = b"".join(self.msgs)
       self.fail = set(args.get("fail", []))
+      self.swap = set(args.get("swap", [])) if self.side != "swloop" else set()
       if self.side == "swloop":
         from harness import c10_loops
         c10_loops.RAISE_SET.clear()
@@ -149,6 +165,8 @@ class Adapter(object):
     else:
       self.worker._push_receive_data(chunk)
       resid = len(self.worker.receive_buf)
+    if self.stale:
+      return {"stale_handler": self.stale[0]}
     new = []
     for t, xid, raw in self.got:
       if not (1 <= xid <= len(self.msgs)):
